@@ -14,6 +14,7 @@ import (
 	"sync"
 	"unsafe"
 
+	"github.com/cenkalti/rain/v2/internal/piecewriter"
 	"github.com/cenkalti/rain/v2/internal/tracker"
 )
 
@@ -45,7 +46,43 @@ var (
 func VerifResetLoops() {
 	verifMu.Lock()
 	verifCtls = map[*torrent]*verifCtl{}
+	verifEvents = map[*torrent][]VerifEvent{}
 	verifMu.Unlock()
+}
+
+// VerifEvent is something the loop received that an oracle needs attributed to its source without
+// reading the client's own bookkeeping (e.g. the ban list): the generated step calls verifObserve
+// with the received value before the handler runs.
+type VerifEvent struct {
+	Kind   string // "hashfail"
+	Source string // peer IP, or web seed URL
+	Piece  uint32
+}
+
+var verifEvents = map[*torrent][]VerifEvent{}
+
+func verifObserve(t *torrent, idx int, v any) {
+	pw, ok := v.(*piecewriter.PieceWriter)
+	if !ok || pw == nil || pw.HashOK {
+		return
+	}
+	src := ""
+	switch x := pw.Source.(type) {
+	case interface{ IP() string }:
+		src = x.IP()
+	default:
+		src = fmt.Sprintf("%T", x)
+	}
+	verifMu.Lock()
+	verifEvents[t] = append(verifEvents[t], VerifEvent{Kind: "hashfail", Source: src, Piece: pw.Piece.Index})
+	verifMu.Unlock()
+}
+
+// VerifEvents returns the observations recorded for this torrent's loop.
+func (t *Torrent) VerifEvents() []VerifEvent {
+	verifMu.Lock()
+	defer verifMu.Unlock()
+	return append([]VerifEvent{}, verifEvents[t.torrent]...)
 }
 
 func (t *torrent) verifLoop() {
